@@ -27,6 +27,7 @@ type inputString struct {
 	pointer int
 	eof     bool
 	length  int
+	offsets []int // byte offset in s of every code point, built on first use
 }
 
 func newInputString(s string) *inputString {
@@ -48,20 +49,32 @@ func (i *inputString) nextCodePoint() rune {
 	return r
 }
 
+// currentIsInvalid tells if the current code point stands for a byte which is not part of a valid UTF-8 sequence
+// (as opposed to a U+FFFD which is spelled out in the input).
 func (i *inputString) currentIsInvalid() bool {
-	return i.runes[i.pointer] == utf8.RuneError
+	if i.pointer < 0 || i.pointer >= i.length || i.runes[i.pointer] != utf8.RuneError {
+		return false
+	}
+	_, width := utf8.DecodeRuneInString(i.s[i.byteOffset():])
+	return width == 1
 }
 
 func (i *inputString) getCurrentAsByte() byte {
-	if i.pointer >= i.length {
-		i.eof = true
+	if i.pointer < 0 || i.pointer >= i.length {
 		return 0
 	}
-	var pos int
-	for j := 0; j < i.pointer; j++ {
-		pos += utf8.RuneLen(i.runes[j])
+	return i.s[i.byteOffset()]
+}
+
+// byteOffset returns the position in s of the current code point.
+func (i *inputString) byteOffset() int {
+	if i.offsets == nil {
+		i.offsets = make([]int, 0, i.length)
+		for pos := range i.s {
+			i.offsets = append(i.offsets, pos)
+		}
 	}
-	return i.s[pos]
+	return i.offsets[i.pointer]
 }
 
 func (i *inputString) rewindLast() {
